@@ -437,6 +437,12 @@ def _generic_once(agg, job, tier, seed, first=True, reps=1):
     rc, out, err = run_proc(cmd, timeout=timeout)
     d = last_json(out)
     if d is None:
+        if "has overflowed its stack" in err and job.get("abort_is_violation"):
+            # the harness process was aborted by a stack overflow inside a thread created by the code under test
+            ln = [x for x in err.splitlines() if "overflowed its stack" in x][-1].strip()
+            agg.viol.append({"prop": prop, "clause": job["abort_is_violation"], "engine": job["engine"], "profile": ",".join(a for a in args if not a.startswith("--") and not a.isdigit()), "seed": seed, "pert": 0,
+                             "msg": f"the process running this workload was aborted: {ln}", "args": args})
+            return
         agg.inconclusive.append(f"{job['engine']} produced no result (rc={rc}): {err.strip()[-400:]}")
         return
     agg.scenarios += d.get("scenarios", 0)
@@ -512,7 +518,7 @@ PLANS = {
     "C15": [MIRI, M(["dlrace"], 6, 40, seed_off=31), S(["deadlock"], 48000, 400000, perts=(2, 4), seed_off=500), S(["deadlock"], 12000, 100000, mode="erased", seed_off=800), S(["traffic", "faults"], 9000, 60000)],
     "C16": [M(["blocking", "notime"], 7, 40), S(["traffic", "refs", "timeouts", "kill", "lifecycle", "backpressure", "idle", "faults"], 7500, 60000, mode="diff"), S(["deadlock"], 6000, 40000, mode="diff", seed_off=700), S(["refs", "traffic", "kill"], 6000, 40000, mode="diff", build="none", seed_off=1000)],
     "C20": [MIRI, M(["readers"], 6, 60), M(["slow"], 2, 20, seed_off=5), M(["metricsrace", "abort"], 6, 40, seed_off=6), {"engine": "gen", "actors": (16, 120), "rounds": (1, 2), "skip_negatives": True}, S(["metrics", "traffic", "kill", "faults"], 15000, 120000)],
-    "C17": [M(["blocking"], 8, 90), M(["general"], 6, 60, seed_off=77), M(["hogged", "dropsend", "hookblocking"], 11, 60, seed_off=13)],
+    "C17": [M(["blocking"], 8, 90), M(["general"], 6, 60, seed_off=77), M(["hogged", "dropsend", "hookblocking"], 11, 60, seed_off=13), M(["bigmsg"], 1, 3, seed_off=3, abort_is_violation="C17.same_rules")],
     "C19": [M(["blocking", "general"], 6, 40), {"engine": "gen", "actors": (60, 400), "rounds": (1, 3)}, S(["traffic", "faults"], 9000, 60000)],
     "C18": [{"engine": "mtdiff", "profiles": ["notime", "hookblocking"], "args": (["--profiles", "notime,hookblocking", "--secs", 5], ["--profiles", "notime,hookblocking", "--secs", 30]), "timeout": (240, 600)}, {"engine": "featdiff", "profiles": ["traffic", "backpressure", "lifecycle", "kill", "refs", "idle", "timeouts", "faults", "metrics", "overlap"], "count": (1500, 20000)}],
 }
